@@ -586,8 +586,18 @@ BOUND_LIB = """module bm
     procedure, PASS( Me ) :: tb_pass_spaced => bimpl_mid
     procedure, pass (ME) :: tb_pass_upper => bimpl_last
     procedure, nopass :: tb_nopass => bimpl_none
+    procedure :: tb_short_upper => S
+    procedure :: tb_keyword_part => UB
   end type bt
 contains
+  subroutine S(me, x, y)
+    class(bt) :: me
+    integer :: x, y
+  end subroutine S
+  subroutine UB(me, x, y)
+    class(bt) :: me
+    integer :: x, y
+  end subroutine UB
   subroutine bimpl_first(me, x, y)
     class(bt) :: me
     integer :: x, y
@@ -605,7 +615,8 @@ contains
   end subroutine bimpl_none
 end module bm
 """
-BOUND_NAMES = ["tb_default", "tb_pass", "tb_pass_spaced", "tb_pass_upper", "tb_nopass"]
+# (the last two: implementations whose upper-case names also occur inside the word SUBROUTINE of the hover text)
+BOUND_NAMES = ["tb_default", "tb_pass", "tb_pass_spaced", "tb_pass_upper", "tb_nopass", "tb_short_upper", "tb_keyword_part"]
 
 
 def bound_case(name, acc: Acc):
@@ -680,7 +691,7 @@ def main(ctx):
     sacc = core.pmap(sig_case, CALLS, chunk=1, budget_s=120, label="C11/sig")
     ctx.add_family("signature", sacc)
     tacc = core.pmap(bound_case, BOUND_NAMES, chunk=1, budget_s=120, label="C11/bound")
-    ctx.add_family("bound_signature", tacc, what="calls through five bindings (default pass, PASS(name) in three spellings and dummy positions, NOPASS)")
+    ctx.add_family("bound_signature", tacc, what="calls through seven bindings (default pass, PASS(name) in three spellings and dummy positions, NOPASS, implementations named S and UB)")
 
 
 def replay(rec):
